@@ -102,7 +102,7 @@ func runC06(c *core.Ctx) {
 				case an.IsCall(call, "db/wal.ReadSaltAt"):
 					return "readSalt", true
 				case an.IsCall(call, "db/wal.NewCompactingFrameScanner"):
-					if call.Common().Args[1] == startIdx {
+					if a := call.Common().Args[1]; a == startIdx || an.Rz(a) == startIdx {
 						return "scan(from=Check)", true
 					}
 					return "scan(from=?)", true
